@@ -23,8 +23,9 @@ the initial value of `index`, `combineHandlers`, `Use`, `Group`, `handle`, `Engi
 this theorem (and the check then says so, with or without a failing input). -/
 theorem source_shape :
     Hertz.Gen.Chain.indexType = "int8" ∧
-    Hertz.Gen.Chain.next = ["ctx.index++", "for ctx.index < int8(len(ctx.handlers))",
-      "ctx.handlers[ctx.index](c, ctx)", "ctx.index++", "end"] ∧
+    Hertz.Gen.Chain.next = ["if ctx.index < math.MaxInt8", "ctx.index++", "end",
+      "for ctx.index < int8(len(ctx.handlers))", "ctx.handlers[ctx.index](c, ctx)",
+      "if ctx.index < math.MaxInt8", "ctx.index++", "end", "end"] ∧
     Hertz.Gen.Chain.abort = ["ctx.index = rConsts.AbortIndex"] ∧
     Hertz.Gen.Chain.abortWithStatus = ["ctx.SetStatusCode(code)", "ctx.Abort()"] ∧
     Hertz.Gen.Chain.isAborted = ["return ctx.index >= rConsts.AbortIndex"] ∧
@@ -51,68 +52,48 @@ theorem source_shape :
     Hertz.Gen.Chain.serveError.take 2 = ["ctx.SetStatusCode(code)", "ctx.Next(c)"] := by
   decide +kernel
 
-/-- **Onion order.**  For every chain no longer than `AbortIndex` (every chain registration can
-produce, see `registered_chains_short`) and every script per handler, if the `int8` index does not
-wrap (`noWrap`, decidable) then the run ends normally and its trace is accepted by the onion monitor:
-handlers are entered at most once, in registration order, only while no `Abort*` has happened; they
-exit innermost first; nothing stays open. -/
-theorem onion (hs : List Script) (hlen : hs.length ≤ 63) (hw : noWrap hs = true) :
-    (∃ j, (run hs).2 = .ok j) ∧ onionOK hs.length (run hs).1 = true :=
-  ⟨run_ok_of_noWrap hs hlen hw, onion_of_noWrap hs hlen hw⟩
+/-- **Onion order.**  For every chain of at most `AbortIndex` handlers (every chain registration can
+produce, see `registered_chains_short`) and every script per handler — any number of `Next`, `Abort`,
+`AbortWithStatus` calls in any order — the run ends normally (no panic: the `int8` index saturates at
+`MaxInt8` instead of wrapping) with the index past the chain, and its trace is accepted by the onion
+monitor: handlers are entered at most once, in registration order, only while no `Abort*` has
+happened; they exit innermost first; nothing stays open. -/
+theorem onion (hs : List Script) (hlen : hs.length ≤ 63) :
+    (∃ j, (run hs).2 = .ok j ∧ (hs.length : Int) ≤ j ∧ j ≤ 127) ∧ onionOK hs.length (run hs).1 = true :=
+  ⟨run_ok hs hlen, run_onion hs hlen⟩
 
-/-- non-vacuity: a five-handler chain mixing all behaviours meets the hypotheses … -/
-example : noWrap [[.next, .abort], [.probe, .next, .next], [.abortStatus 401, .next], [.next], []] = true := by
-  decide +kernel
-/-- … and four of its handlers are entered (the third aborts). -/
+/-- non-vacuity: a five-handler chain mixing all behaviours; three handlers are entered (the third aborts). -/
 example : enters (run [[.next, .abort], [.probe, .next, .next], [.abortStatus 401, .next], [.next], []]).1 = [0, 1, 2] := by
   decide +kernel
 
 /-- What monitor acceptance says in plain terms: the positions entered are strictly increasing (so
 each handler at most once, in registration order), all below the chain length, and no handler is
 entered after an `Abort*` event. -/
-theorem onion_declarative (hs : List Script) (hlen : hs.length ≤ 63) (hw : noWrap hs = true) :
+theorem onion_declarative (hs : List Script) (hlen : hs.length ≤ 63) :
     (enters (run hs).1).Pairwise (· < ·) ∧ (∀ p ∈ enters (run hs).1, p < hs.length) ∧
     noEnterAfterAbort (run hs).1 = true :=
-  onionOK_facts _ _ (onion_of_noWrap hs hlen hw)
+  onionOK_facts _ _ (run_onion hs hlen)
 
 example : noEnterAfterAbort (run [[.next], [.abort, .next], [.next]]).1 = true ∧
     enters (run [[.next], [.abort, .next], [.next]]).1 = [0, 1] := by decide +kernel
 
-/-- **Closed form of `noWrap`.**  Every handler costs one index increment and every `Next` call one
-more; if `AbortIndex` plus that total stays within `int8`, the index never wraps. -/
-theorem noWrap_of_small (hs : List Script) (hlen : hs.length ≤ 63)
-    (h : Hertz.Gen.abortIndex + (work hs : Int) ≤ 127) : noWrap hs = true :=
-  noWrap_of_work hs hlen h
-
-/-- … in particular `AbortIndex + 3·len ≤ 127` suffices when no handler calls `Next` more than twice. -/
-theorem noWrap_of_small_two_nexts (hs : List Script) (h2 : ∀ sc ∈ hs, nexts sc ≤ 2)
-    (h : Hertz.Gen.abortIndex + 3 * (hs.length : Int) ≤ 127) : noWrap hs = true := by
-  have hw := work_le hs 2 h2
-  have hg : Hertz.Gen.abortIndex = 63 := rfl
-  exact noWrap_of_work hs (by omega) (by omega)
-
-example : Hertz.Gen.abortIndex + 3 * (([[.next, .next], [.next, .abort], [.next]] : List Script).length : Int) ≤ 127 := by
-  decide
-
-/-- The interpreter's fuel is never what ends a run of a registrable chain: the model's verdicts are
-about the Go loop, not about the fuel. -/
-theorem run_total (hs : List Script) (hlen : hs.length ≤ 63) : (run hs).2 ≠ .error .fuel :=
-  run_never_out_of_fuel hs hlen
+/-- The interpreter's fuel is never what ends a run of a registrable chain, and `handlers[index]` is
+never out of range: the model's verdicts are about the Go loop, not about the fuel. -/
+theorem run_total (hs : List Script) (hlen : hs.length ≤ 63) : ∀ f, (run hs).2 ≠ .error f := by
+  intro f hf
+  obtain ⟨j, hj, _⟩ := run_ok hs hlen
+  rw [hj] at hf; cases hf
 
 example : (run [[.next, .next], [.abort]]).2 = .ok 66 := by decide +kernel
 
-/-- **F11: the statement without `noWrap` is false of the code.**  62 handlers (a chain registration
-accepts) each calling `Next` twice drive the `int8` index from 127 to −128, and `handlers[-128]`
-panics. -/
-theorem onion_fails_at :
-    noWrap (List.replicate 62 [.next, .next]) = false ∧
-    (run (List.replicate 62 [.next, .next])).2 = .error (.panic (-128)) := by decide +kernel
-
-/-- The same chain with 42 handlers is fine, with 43 it wraps: the bound of `noWrap_of_small`
-(`63 + 3·len ≤ 127`, i.e. `len ≤ 21`) is sufficient, not necessary. -/
-theorem wrap_threshold :
-    noWrap (List.replicate 42 [.next, .next]) = true ∧ noWrap (List.replicate 43 [.next, .next]) = false := by
-  decide +kernel
+/-- **Regression for F11 (fixed).**  62 handlers (a chain registration accepts) each calling `Next`
+twice used to drive the `int8` index from 127 to −128 and panic in `handlers[-128]`.  With the
+saturating increments the run ends with the index at 127, all 62 handlers entered in order, and the
+trace is accepted. -/
+theorem f11_regression :
+    (run (List.replicate 62 [.next, .next])).2 = .ok 127 ∧
+    enters (run (List.replicate 62 [.next, .next])).1 = List.range 62 ∧
+    onionOK 62 (run (List.replicate 62 [.next, .next])).1 = true := by decide +kernel
 
 /-- **`Abort` does not stop a chain longer than `AbortIndex`.**  Such a chain cannot be registered,
 but `RequestContext.SetHandlers` is public: with 65 handlers of which the first aborts, handler 64 is
@@ -135,13 +116,16 @@ example : (Engine.new.applyAll 0 [.use 0 [1], .group 0 [2], .handle 1 0 1 [3]]).
     (fun e => (e.select 0 1 1 false).1) = some [1, 2, 3] := by decide +kernel
 
 /-- The two halves together: the chain served for any request with a Host, under any registration
-history and any behaviour of the handlers, is onion-ordered unless the index wraps. -/
+history and any behaviour of the handlers, ends normally and is onion-ordered. -/
 theorem served_chain_onion (ops : List Op) (e : Engine) (h : Engine.new.applyAll 0 ops = .ok e)
-    (me g k : Nat) (script : H → Script) (hw : noWrap ((e.select me g k false).1.map script) = true) :
+    (me g k : Nat) (script : H → Script) :
+    (∃ j, (run ((e.select me g k false).1.map script)).2 = .ok j) ∧
     onionOK ((e.select me g k false).1.map script).length (run ((e.select me g k false).1.map script)).1 = true := by
   have hlen := (registered_chains_short ops e h).2 me g k
   have hg : Hertz.Gen.abortIndex = 63 := rfl
-  exact onion_of_noWrap _ (by rw [List.length_map]; omega) hw
+  have hl : ((e.select me g k false).1.map script).length ≤ 63 := by rw [List.length_map]; omega
+  obtain ⟨j, hj, _⟩ := run_ok _ hl
+  exact ⟨⟨j, hj⟩, run_onion _ hl⟩
 
 /-- **Group order.**  Every route of the engine was put there by a `Handle` call, and its chain is what
 the group carried at that moment — the parts contributed along the path engine → … → group, outermost
